@@ -418,6 +418,9 @@ impl<'a> Repr<'a> {
         T: AsRef<[u8]> + AsMut<[u8]> + ?Sized,
     {
         packet.set_transaction_id(self.transaction_id);
+        // Flags, opcode and rcode share one word; start from zero so that the rcode and the
+        // reserved bit, which are not part of this representation, do not keep stale buffer bytes.
+        NetworkEndian::write_u16(&mut packet.buffer.as_mut()[field::FLAGS], 0);
         packet.set_flags(self.flags);
         packet.set_opcode(self.opcode);
         packet.set_question_count(1);
